@@ -102,6 +102,10 @@ static CALL_LIMIT: AtomicUsize = AtomicUsize::new(0);
 /// * `limit` - The maximum number of calls. If None,
 ///             the number of calls is unlimited.
 pub fn set_call_limit(limit: Option<NonZeroUsize>) {
+    #[cfg(pest_parser_pest_verif)]
+    crate::verif::emit(crate::verif::Site::CallLimitStore(
+        limit.map(|f| f.get()).unwrap_or(0),
+    ));
     CALL_LIMIT.store(limit.map(|f| f.get()).unwrap_or(0), Ordering::Relaxed);
 }
 
@@ -118,6 +122,8 @@ static ERROR_DETAIL: AtomicBool = AtomicBool::new(false);
 /// * `enabled` - Whether to enable the collection for
 ///               more error details.
 pub fn set_error_detail(enabled: bool) {
+    #[cfg(pest_parser_pest_verif)]
+    crate::verif::emit(crate::verif::Site::ErrorDetailStore(enabled));
     ERROR_DETAIL.store(enabled, Ordering::Relaxed);
 }
 
@@ -128,7 +134,11 @@ struct CallLimitTracker {
 
 impl Default for CallLimitTracker {
     fn default() -> Self {
+        #[cfg(pest_parser_pest_verif)]
+        crate::verif::emit(crate::verif::Site::Yield);
         let limit = CALL_LIMIT.load(Ordering::Relaxed);
+        #[cfg(pest_parser_pest_verif)]
+        crate::verif::emit(crate::verif::Site::CallLimitLoad(limit));
         let current_call_limit = if limit > 0 { Some((0, limit)) } else { None };
         Self { current_call_limit }
     }
@@ -290,6 +300,12 @@ impl<R: RuleType> ParseAttempts<R> {
     /// Create new `ParseAttempts` instance with `call_stacks` and `expected_tokens`
     /// initialized with capacity.
     pub fn new() -> Self {
+        #[cfg(pest_parser_pest_verif)]
+        crate::verif::emit(crate::verif::Site::Yield);
+        #[cfg(pest_parser_pest_verif)]
+        crate::verif::emit(crate::verif::Site::ErrorDetailLoad(
+            ERROR_DETAIL.load(Ordering::Relaxed),
+        ));
         Self {
             call_stacks: Vec::with_capacity(CALL_STACK_INITIAL_CAPACITY),
             expected_tokens: Vec::with_capacity(EXPECTED_TOKENS_INITIAL_CAPACITY),
@@ -623,6 +639,10 @@ impl<'i, R: RuleType> ParserState<'i, R> {
 
     #[inline]
     fn inc_call_check_limit(mut self: Box<Self>) -> ParseResult<Box<Self>> {
+        #[cfg(pest_parser_pest_verif)]
+        crate::verif::emit(crate::verif::Site::Call {
+            refused: self.call_tracker.limit_reached(),
+        });
         if self.call_tracker.limit_reached() {
             return Err(self);
         }
